@@ -34,6 +34,8 @@ func runC20(c *Check, tier string) {
 	ruleWrittenOnlyByLoader(c, "R20l", "model.Target", "Inputs", "`owners` answers from what the loader resolved (patterns minus exclude_inputs) while the change hash is computed from the rewritten list: editing a file that `owners` attributes to no target re-executes targets")
 	// round 7: a memo inside a traversal remembers complete closures only
 	ruleNoMemoOfPartialTraversal(c, "R20n", "dag", "analysis", "selection")
+	// round 8: owners, the key and the build agree on what a target's inputs are
+	ruleInputsFilteredByExclusionsOnly(c, "R20o")
 }
 
 // cobraCommands maps the `Use` word of each cobra command to its Run function.
@@ -179,6 +181,34 @@ func ruleR20a(c *Check) {
 				}
 			}
 		}
+		// the accessor may be picked as a function value (a method expression handed to a shared query runner)
+		for _, b := range fn.Blocks {
+			for _, in := range b.Instrs {
+				for _, op := range in.Operands(nil) {
+					if op == nil || *op == nil {
+						continue
+					}
+					var f *ssa.Function
+					switch x := (*op).(type) {
+					case *ssa.Function:
+						f = x
+					case *ssa.MakeClosure:
+						f, _ = x.Fn.(*ssa.Function)
+					}
+					if f == nil {
+						continue
+					}
+					if u := engine.Unwrap(f); u != nil {
+						f = u
+					}
+					if engine.InPackage(f, "dag") && len(f.Blocks) > 0 && returnsNodeSlice(f) {
+						i, o := edgeSide(c, f)
+						usesIn = usesIn || i
+						usesOut = usesOut || o
+					}
+				}
+			}
+		}
 		ok := (wantIn && usesIn && !usesOut) || (!wantIn && usesOut && !usesIn)
 		c.Require(ok, "R20a", "query-side/"+name, "`"+name+"` reads only the "+map[bool]string{true: "in-edge (dependency)", false: "out-edge (dependant)"}[wantIn]+" side", fmt.Sprintf("`%s` reads the wrong side of the graph (in-edges: %v, out-edges: %v)", name, usesIn, usesOut), c.P.Pos(fn.Pos()))
 	}
@@ -276,7 +306,7 @@ func ruleR20b2(c *Check) {
 // isIndexBoundAtom: an index compared with the length of a list (manual iteration over a stored neighbour list).
 func isIndexBoundAtom(a engine.Atom) bool {
 	switch a.Op {
-	case "lt", "le", "gt", "ge":
+	case "lt", "le", "gt", "ge", "eq", "ne": // `pos == len(xs)`: an index that grows by one meets the length exactly
 		if _, ok := lenArg(a.V); ok {
 			return true
 		}
